@@ -85,6 +85,10 @@ pub struct Interp<C: Suite> {
     /// script label -> how to build the identifier (absent: label n is scalar n)
     pub id_specs: HashMap<String, Value>,
     pub rng: SeedRng,
+    pub log_served: bool,
+    /// how a bare label n becomes an identifier: "plain" (scalar n), "u16mul" (u16 n*4369),
+    /// "derive" (hash-derived), "big" (n * 2^64 + 7, above the u16 range)
+    pub id_mode: String,
 }
 
 pub fn hkey(v: &Value) -> SR<String> {
@@ -128,7 +132,9 @@ fn err_name<C: Suite>(e: &Error<C>) -> String {
 
 impl<C: Suite> Interp<C> {
     pub fn new(seed: u64) -> Self {
-        Interp { env: HashMap::new(), id_labels: HashMap::new(), id_specs: HashMap::new(), rng: SeedRng::new(seed) }
+        let mut rng = SeedRng::new(seed);
+        rng.record_bytes = true;
+        Interp { env: HashMap::new(), id_labels: HashMap::new(), id_specs: HashMap::new(), rng, log_served: false, id_mode: "plain".into() }
     }
 
     // ------------------------------------------------------------ identifiers
@@ -137,8 +143,26 @@ impl<C: Suite> Interp<C> {
         let spec = self.id_specs.get(&key).cloned();
         let id = match spec {
             None => {
-                let s = C::scalar_lit(label).ok_or(ScriptError(format!("bad id literal {label}")))?;
-                Identifier::<C>::new(s).map_err(|_| ScriptError(format!("zero identifier {label}")))?
+                let n = label.as_u64();
+                match (self.id_mode.as_str(), n) {
+                    ("u16mul", Some(n)) if !C::IS_TOY && n * 4369 <= 65535 => {
+                        Identifier::<C>::try_from((n * 4369) as u16).map_err(|_| ScriptError("bad u16 id".into()))?
+                    }
+                    ("derive", Some(n)) if !C::IS_TOY => Identifier::<C>::derive(format!("participant-{n}").as_bytes())
+                        .map_err(|_| ScriptError("derive failed".into()))?,
+                    ("big", Some(n)) if !C::IS_TOY => {
+                        let mut s = scalar_from_u64::<C>(n);
+                        for _ in 0..64 {
+                            s = s + s;
+                        }
+                        s = s + scalar_from_u64::<C>(7);
+                        Identifier::<C>::new(s).map_err(|_| ScriptError("zero id".into()))?
+                    }
+                    _ => {
+                        let s = C::scalar_lit(label).ok_or(ScriptError(format!("bad id literal {label}")))?;
+                        Identifier::<C>::new(s).map_err(|_| ScriptError(format!("zero identifier {label}")))?
+                    }
+                }
             }
             Some(spec) => {
                 if let Some(n) = spec.get("u16").and_then(|x| x.as_u64()) {
@@ -257,7 +281,19 @@ impl<C: Suite> Interp<C> {
     }
     pub(crate) fn err_j(&self, e: &Error<C>) -> Value {
         let c: Vec<Value> = e.culprits().iter().map(|i| self.idj(i)).collect();
-        json!({"ok": false, "err": err_name(e), "culprits": c})
+        // identifiers as big-endian byte strings: lets the trace specification check the order
+        let be: Vec<Value> = e
+            .culprits()
+            .iter()
+            .map(|i| {
+                let mut b = i.serialize();
+                if C::LE {
+                    b.reverse();
+                }
+                bytes_json(&b)
+            })
+            .collect();
+        json!({"ok": false, "err": err_name(e), "culprits": c, "culprits_be": be})
     }
     pub(crate) fn zs_scalar(z: &SignatureShare<C>) -> Scalar<C> {
         let b = z.serialize();
@@ -306,6 +342,7 @@ impl<C: Suite> Interp<C> {
             }
         }));
         let reqs: Vec<usize> = if use_script { srng.requests.clone() } else { seed_rng.requests[before..].to_vec() };
+        let served: Vec<Vec<u8>> = if use_script { srng.served.clone() } else { std::mem::take(&mut seed_rng.served) };
         self.rng = seed_rng;
         let mut res = match r {
             Ok(Ok(v)) => v,
@@ -321,6 +358,9 @@ impl<C: Suite> Interp<C> {
         };
         if let Value::Object(m) = &mut res {
             m.insert("rng_req".into(), json!(reqs));
+            if self.log_served {
+                m.insert("rng_served".into(), Value::Array(served.iter().map(|b| bytes_json(b)).collect()));
+            }
             if use_script {
                 m.insert("rng_unused".into(), json!(srng.unused()));
                 m.insert("rng_overrun".into(), json!(srng.overrun));
@@ -603,11 +643,16 @@ impl<C: Suite> Interp<C> {
                 let rt = sig.serialize().ok().and_then(|b| Signature::<C>::deserialize(&b).ok());
                 let r = vk.verify(&msg, &sig);
                 let rt_ok = rt.map(|s| vk.verify(&msg, &s).is_ok());
+                let ext = match (vk.serialize(), sig.serialize()) {
+                    (Ok(vb), Ok(sb)) => C::ext_verify(&vb, &msg, &sb),
+                    _ => None,
+                };
                 match r {
-                    Ok(()) => Ok(json!({"ok": true, "roundtrip_ok": rt_ok})),
+                    Ok(()) => Ok(json!({"ok": true, "roundtrip_ok": rt_ok, "ext_ok": ext})),
                     Err(e) => {
                         let mut v = self.err_j(&e);
                         v["roundtrip_ok"] = json!(rt_ok);
+                        v["ext_ok"] = json!(ext);
                         Ok(v)
                     }
                 }
